@@ -456,6 +456,10 @@ pub trait KD: VC {
     fn seq_cmp(_a: &Seq<Self>, _b: &Seq<Self>) -> Option<(core::cmp::Ordering, Option<core::cmp::Ordering>)> {
         None
     }
+    /// observations on a SeqArray built from codes (codecs of the literal macros only)
+    fn arr(_cs: &[usize], _other: &SeqSlice<Self>) -> Option<Vec<String>> {
+        None
+    }
     fn xlate(_m: usize, _s: &SeqSlice<Self>) -> Option<Vec<String>> {
         None
     }
@@ -495,7 +499,50 @@ macro_rules! kd_arms {
     (@ordu false, $st:ident, $kk:literal, $name:ident, $t:ident) => { false };
 }
 
+macro_rules! arr_dispatch {
+    ($cs:ident, $other:ident, $bits:expr, [$(($n:literal, $w:literal)),*]) => {
+        match $cs.len() {
+            $( $n => {
+                let mut o = arr_obs::<Self, $n, $w>($cs, $other, false);
+                // Kmer == SeqArray / &SeqArray exist for one-word arrays only
+                if $w == 1 && $n * $bits <= 64 {
+                    o.push("777".into());
+                    o.extend(arr_kmer::<Self, $n>($cs, $other));
+                }
+                Some(o)
+            } )*
+            _ => None,
+        }
+    };
+}
+
+fn arr_kmer<A: VC, const N: usize>(cs: &[usize], other: &SeqSlice<A>) -> Vec<String> {
+    use bio_seq::seq::SeqArray;
+    let a = SeqArray::<A, N, 1> {
+        _p: PhantomData,
+        ba: bitvec::array::BitArray::new(arr_words::<1>(cs, A::BITS as usize)),
+    };
+    let sl: &SeqSlice<A> = &a;
+    let k: Kmer<A, N> = Kmer::try_from(sl).expect("kmer from array");
+    let mut o = vec![((k == a) as u8).to_string(), ((k == &a) as u8).to_string()];
+    // a k-mer with other content (when the other slice has the right length)
+    match Kmer::<A, N>::try_from(other) {
+        Ok(k2) => {
+            o.push(((k2 == a) as u8).to_string());
+            o.push(((k2 == &a) as u8).to_string());
+        }
+        Err(_) => {
+            o.push("2".into());
+            o.push("2".into());
+        }
+    }
+    o
+}
+
 impl KD for Dna {
+    fn arr(cs: &[usize], other: &SeqSlice<Self>) -> Option<Vec<String>> {
+        arr_dispatch!(cs, other, 2, [(1, 1), (2, 1), (3, 1), (4, 1), (5, 1), (8, 1), (16, 1), (31, 1), (32, 1), (33, 2), (40, 2), (64, 2), (65, 3)])
+    }
     fn seq_cmp(a: &Seq<Self>, b: &Seq<Self>) -> Option<(core::cmp::Ordering, Option<core::cmp::Ordering>)> {
         Some((a.cmp(b), a.partial_cmp(b)))
     }
@@ -556,6 +603,25 @@ impl KD for Dna {
     }
 }
 impl KD for Iupac {
+    fn arr(cs: &[usize], other: &SeqSlice<Self>) -> Option<Vec<String>> {
+        use bio_seq::seq::SeqArray;
+        let mut o = arr_dispatch!(cs, other, 4, [(1, 1), (2, 1), (3, 1), (4, 1), (8, 1), (15, 1), (16, 1), (17, 2), (20, 2), (32, 2), (33, 3)])?;
+        // SeqArray<Iupac>::contains
+        macro_rules! cont {
+            ($(($n:literal, $w:literal)),*) => {
+                match cs.len() {
+                    $( $n => {
+                        let a = SeqArray::<Iupac, $n, $w> { _p: PhantomData, ba: bitvec::array::BitArray::new(arr_words::<$w>(cs, 4)) };
+                        a.contains(other) as u8
+                    } )*
+                    _ => 2,
+                }
+            };
+        }
+        o.push("777".into());
+        o.push(cont!((1, 1), (2, 1), (3, 1), (4, 1), (8, 1), (15, 1), (16, 1), (17, 2), (20, 2), (32, 2), (33, 3)).to_string());
+        Some(o)
+    }
     fn kdispatch(st: &mut St<Self>, k: usize, w: u8, name: &str, t: &mut Toks) {
         kd_arms!(st, k, w, name, t, false, false ;
             us: [1,2,3,4,5,6,7,8,9,10,11,12,13,14,15,16] ;
@@ -714,6 +780,46 @@ fn iter_protocol<T: PartialEq, I: Iterator<Item = T>>(mk: impl Fn() -> I, items:
         }
     }
     0
+}
+
+fn arr_words<const W: usize>(cs: &[usize], bits: usize) -> [usize; W] {
+    let mut ws = [0usize; W];
+    for (i, c) in cs.iter().enumerate() {
+        for j in 0..bits {
+            let p = i * bits + j;
+            ws[p / 64] |= ((c >> j) & 1) << (p % 64);
+        }
+    }
+    ws
+}
+
+fn arr_obs<A: VC, const N: usize, const W: usize>(cs: &[usize], other: &SeqSlice<A>, kmer_ok: bool) -> Vec<String>
+where
+    A: Into<A>,
+{
+    use bio_seq::seq::SeqArray;
+    let mk = || SeqArray::<A, N, W> {
+        _p: PhantomData,
+        ba: bitvec::array::BitArray::new(arr_words::<W>(cs, A::BITS as usize)),
+    };
+    let a = mk();
+    let sl: &SeqSlice<A> = &a;
+    let asr: &SeqSlice<A> = a.as_ref();
+    let mut o = lencodes(sl);
+    o.push("777".into());
+    o.extend(lencodes(asr));
+    o.push("777".into());
+    let s1: Seq<A> = Seq::from(&a);
+    o.extend(lencodes::<A>(&s1));
+    o.push("777".into());
+    let s2: Seq<A> = Seq::from(mk());
+    o.extend(lencodes::<A>(&s2));
+    o.push("777".into());
+    o.push(((feed(sl) == feed(&s1)) as u8).to_string());
+    o.push(((*sl == s1) as u8).to_string());
+    o.push(((*sl == *other) as u8).to_string());
+    let _ = kmer_ok;
+    o
 }
 
 fn ordnum(o: core::cmp::Ordering) -> u8 {
@@ -1248,6 +1354,12 @@ where
             }
             let bv = full[h..].to_bitvec();
             st.regs.push(Seq::from(bv));
+        }
+        "arr" => {
+            let cs = t.list();
+            let sd = t.sd();
+            let v = A::arr(&cs, slice_of(&st.regs, &sd)).expect("arr: DNA / IUPAC, lengths of the grid");
+            st.out.push(v.join(" "));
         }
         "xlate" => {
             let m = t.num();
